@@ -1,9 +1,11 @@
 /-
   C13 helper lemmas, part 6: connected components of the 1-skeleton.
     * `Reach s` = reflexive-transitive closure of `Adj s` (two vertices of a 1-simplex);
-    * `labels_spec`: the executable merging of `XgiModel/C13/Components.lean` gives two vertices the same
-      representative exactly when they are joined by a path of 1-simplices;
-    * `nComponents_eq_card`: `nComponents s` is the number of reachability classes of node positions;
+    * `labels_spec`: the merging `labels` of `XgiModel/C13/Components.lean` (the specification that the executable
+      table `repTab` is proved to tabulate: `repTab_eq`, `look_repTab`) gives two vertices the same representative
+      exactly when they are joined by a path of 1-simplices;
+    * `nComponents_eq_card`: the executable count `nComponents s` (read off the table; `nComponents_eq_spec`) is the
+      number of reachability classes of node positions;
     * `const_on_edges_iff_const_on_reach`: a vector indexed by node positions is equal at the end points of every
       column of `B_1` exactly when it is constant on reachability classes;
     * `finrank_ker_of_const_on_classes`: a matrix whose kernel is "the vectors constant on the classes of a setoid"
@@ -165,8 +167,8 @@ theorem dedup_length_eq_card {α : Type} [DecidableEq α] (l : List α) : (dedup
 /-- **the executable count is the number of reachability classes** -/
 theorem nComponents_eq_card (h : ∀ p ∈ s.simplices, p.2.Nodup) : nComponents s = Nat.card (Quotient (compSetoid s)) := by
   classical
-  rw [Nat.card_eq_fintype_card]
-  unfold nComponents
+  rw [Nat.card_eq_fintype_card, nComponents_eq_spec]
+  unfold nComponentsSpec
   rw [dedup_length_eq_card]
   let f : Quotient (compSetoid s) → Atom :=
     Quotient.lift (fun i : Fin s.nodes.length => labels (edgePairs s) s.nodes[i])
